@@ -2,15 +2,18 @@
    One non-blocking evolve call as a transition system over n >= 1 ranks (Model/ParArch.v); a schedule is ANY list of ranks (ranks
    whose next call blocks are skipped) - so every theorem below holds for every interleaving, every number of ranks, every sync
    frequency >= 0, every target, every initial island ages >= 0.
-   Liveness is PARTIAL: proved are (a) no reachable state is stuck and (b) from every reachable state SOME continuation lets every
-   rank return (a lexicographic measure decreases along a suitably chosen enabled step) - the protocol has no trap; (c) once
-   rank 0 has left its loop, EVERY round-robin continuation (rounds = permutations of the ranks, in any order) completes the call
-   within Phi(state) rounds, with no pacing premise.  What is not proved: that rank 0 leaves its loop under every fair schedule
-   satisfying the property's pacing premise (helpers do not produce age updates faster than rank 0 drains them) - that phase is
-   tested on the stand-in only - and fairness notions weaker than round-robin. Blocking mode sends no message (island.evolve(n) on every rank): nothing
-   to interleave. *)
+   Liveness: (a) no reachable state is stuck; (b) from every reachable state SOME continuation lets every rank return (a
+   lexicographic measure decreases along a suitably chosen enabled step) - the protocol has no trap; (c) under EVERY interleaving
+   rank 0 goes round its loop at most deficit-many times (reported ages only grow), so the loop phase can only be prolonged by a
+   drain that never finds the mailbox empty; (d) under the pacing premise, made precise as PACED ROUNDS (every rank at least one
+   turn per round, the helpers fewer than n turns, rank 0 at least 2 * helper turns + 1), every continuation of Omega(state)
+   rounds from every reachable state completes the call, with an explicit bound from the start; (e) once rank 0 has left its
+   loop, every round-robin continuation (rounds = permutations of the ranks) completes within Phi(state) rounds with no pacing
+   premise.  What stays PARTIAL (theorems named _partial): fairness notions weaker than rounds (e.g. "every rank moves
+   infinitely often" with an eventual-rate premise) are not covered.  Blocking mode sends no message (island.evolve(n) on every
+   rank): nothing to interleave. *)
 From Coq Require Import ZArith List Bool Lia.
-From Bingo Require Import Model.ParArch Proofs.ParArchProofs Proofs.ParArchLive Proofs.ParArchFair.
+From Bingo Require Import Model.ParArch Proofs.ParArchProofs Proofs.ParArchLive Proofs.ParArchFair Proofs.ParArchLoop.
 Import ListNotations.
 
 Theorem C12_every_reachable_state_satisfies_the_protocol_invariant :
@@ -69,6 +72,51 @@ Theorem C12_after_the_loop_every_round_robin_continuation_completes_partial :
 Proof. intros n sync target Hn Hs s rounds HI PL F B. apply (late_rounds_finish n sync target Hn Hs rounds s (conj HI PL) F B). Qed.
 Print Assumptions C12_after_the_loop_every_round_robin_continuation_completes_partial.
 
+(* fair termination, first phase, every interleaving: the reported ages only grow, so along ANY schedule from any reachable state
+   rank 0 performs at most deficit-many evolve slices (deficit = n * target - sum of the ages reported so far): the loop can only
+   fail to end through a drain that never finds the mailbox empty - the situation the property's pacing premise excludes *)
+Theorem C12_under_every_interleaving_rank0_goes_round_its_loop_at_most_deficit_times :
+  forall n sync target, (1 <= n)%nat -> (1 <= sync)%Z -> forall ages arch_age sched more,
+  length ages = n -> (forall k, (k < n)%nat -> (0 <= nth k ages 0)%Z) ->
+  ((target <= arch_age)%Z -> (target * Z.of_nat n <= sum_list ages)%Z) -> (0 <= arch_age)%Z ->
+  let s := run n sync target sched (init n target ages arch_age) in
+  (evolves0 n sync target more s <= Z.to_nat (target * Z.of_nat n - sum_total (total s)))%nat.
+Proof.
+  intros n sync target Hn Hs ages arch_age sched more L N G A0 s.
+  apply (loop_iterations_bounded_IG n sync target Hn Hs more s). apply run_IG; [exact Hn|exact Hs|]. apply init_IG; assumption.
+Qed.
+Print Assumptions C12_under_every_interleaving_rank0_goes_round_its_loop_at_most_deficit_times.
+
+(* fair termination under the pacing premise: after ANY schedule prefix, every sequence of paced rounds - in each round every rank
+   gets at least one turn, the helpers fewer than n turns altogether, and rank 0 at least twice as many turns as the helpers plus
+   one (a helper needs three calls per age update, rank 0 two calls to receive one), in any order - of length Omega(state) ends
+   with every rank returned.  Omega = 2 * (2 * deficit + 2 * pending messages + flag) + K while rank 0 is in its loop, Phi after. *)
+Theorem C12_every_paced_round_robin_continuation_completes_the_call :
+  forall n sync target, (1 <= n)%nat -> (1 <= sync)%Z -> forall ages arch_age sched rounds,
+  length ages = n -> (forall k, (k < n)%nat -> (0 <= nth k ages 0)%Z) ->
+  ((target <= arch_age)%Z -> (target * Z.of_nat n <= sum_list ages)%Z) -> (0 <= arch_age)%Z ->
+  Forall (fun l => Forall (fun r => r < n)%nat l /\ (forall q, (q < n)%nat -> In q l) /\ (helpers l + 1 <= n)%nat /\
+                   (2 * helpers l + 1 <= count0 l)%nat) rounds ->
+  (Omega n target (run n sync target sched (init n target ages arch_age)) <= length rounds)%nat ->
+  final (run n sync target (sched ++ concat rounds) (init n target ages arch_age)) = true.
+Proof.
+  intros n sync target Hn Hs ages arch_age sched rounds L N G A0 F B.
+  apply (reachable_paced_finish n sync target Hn Hs ages arch_age sched rounds L N G A0); [|exact B].
+  eapply Forall_impl; [|exact F]. intros l (H1 & H2 & H3 & H4). split; [split; [exact H1|split; [exact H2|exact H3]]|exact H4].
+Qed.
+Print Assumptions C12_every_paced_round_robin_continuation_completes_the_call.
+
+(* ... and from the start of the call an explicit number of paced rounds suffices: 4 n target + 6n(n+5) + 20n + 2 *)
+Theorem C12_from_the_start_an_explicit_number_of_paced_rounds_suffices :
+  forall n sync target, (1 <= n)%nat -> (1 <= sync)%Z -> forall ages arch_age rounds,
+  length ages = n -> (forall k, (k < n)%nat -> (0 <= nth k ages 0)%Z) ->
+  ((target <= arch_age)%Z -> (target * Z.of_nat n <= sum_list ages)%Z) -> (0 <= arch_age)%Z ->
+  Forall (paced n) rounds ->
+  (4 * Z.to_nat (target * Z.of_nat n) + (6 * n * (n + 5) + 20 * n + 2) <= length rounds)%nat ->
+  final (run n sync target (concat rounds) (init n target ages arch_age)) = true.
+Proof. intros n sync target Hn Hs ages arch_age rounds L N G A0 F B. apply (init_paced_finish n sync target Hn Hs ages arch_age rounds L N G A0 F B). Qed.
+Print Assumptions C12_from_the_start_an_explicit_number_of_paced_rounds_suffices.
+
 (* REFUTED clause (known finding F13): "at return the mean island age has advanced by at least the requested number of
    generations" fails for a repeated call in which a helper's island is ahead of the archipelago's age: the loop compares the mean
    REPORTED age with generational_age + num_steps, and the helper's lead counts towards it.  Witness: two ranks, sync 2, the
@@ -93,3 +141,17 @@ Example C12_example :
   let s := run 3 2 4 ex_sched (init 3 4 [1; 1; 1]%Z 1) in
   final s = true /\ mbox s = [] /\ age s = [5; 7; 7]%Z.
 Proof. vm_compute. repeat split. Qed.
+
+(* non-vacuity of the paced theorem: three ranks, the round 0 0 0 0 0 1 2 is paced, and 254 such rounds (the explicit bound for
+   target 4) complete the call; 9 rounds already do *)
+Definition paced_round : list nat := [0; 0; 0; 0; 0; 1; 2]%nat.
+Example C12_paced_example :
+  paced 3 paced_round /\ (4 * Z.to_nat (4 * 3) + (6 * 3 * (3 + 5) + 20 * 3 + 2) = 254)%nat /\
+  final (run 3 2 4 (concat (repeat paced_round 254)) (init 3 4 [1; 1; 1]%Z 1)) = true /\
+  final (run 3 2 4 (concat (repeat paced_round 9)) (init 3 4 [1; 1; 1]%Z 1)) = true.
+Proof.
+  split.
+  - split; [split; [repeat constructor|split; [|cbn; lia]]|cbn; lia].
+    intros [|[|[|q]]] Hq; cbn; try lia; auto 10.
+  - split; [reflexivity|]. split; vm_compute; reflexivity.
+Qed.
